@@ -42,8 +42,22 @@ fn main() {
     let mut repo = Repo::create(&root, "repo", &linear, &gitx::dates(2, DateMode::Increasing));
     repo.set_tags(&[Tag { name: "v1.2.3".into(), target: 0, annotated: false }]);
     repo.set_head(&Head::Branch("main".into()));
+    // path spellings for repo_path: the wrapper must hand the text to -C untouched. A second repository (other version) sits
+    // where a *textual* normalisation of "link/../repo2" would not look: root/work/link -> root/store/inner, so the kernel
+    // resolves root/work/link/../repo2 to root/store/repo2 while os.path.normpath gives root/work/repo2 (absent)
+    let store = root.join("store");
+    std::fs::create_dir_all(store.join("inner")).unwrap();
+    std::fs::create_dir_all(root.join("work")).unwrap();
+    let mut repo2 = Repo::create(&store, "repo2", &linear, &gitx::dates(2, DateMode::Increasing));
+    repo2.set_tags(&[Tag { name: "v7.7.7".into(), target: 1, annotated: false }]);
+    repo2.set_head(&Head::Branch("main".into()));
+    let _ = std::os::unix::fs::symlink(store.join("inner"), root.join("work/link"));
+    let _ = std::os::unix::fs::symlink(&repo.dir, root.join("work/repolink"));
+    let rd = repo.dir.display().to_string();
+    let paths = vec![format!("{rd}/"), format!("{rd}/."), format!("{rd}//"), format!("{}/work/link/../repo2", root.display()), format!("{}/work/repolink", root.display()), format!("{}/store/inner/../repo2/./", root.display()), format!("{}/repo/../repo", root.display())];
     let out_path = root.join("result.json");
     let mut env = proc::base_env();
+    env.push(("ZV_C18_PATHS".into(), serde_json::to_string(&paths).unwrap()));
     env.push(("PYTHONDONTWRITEBYTECODE".into(), "1".into()));
     env.push(("PYTHONPATH".into(), "/repo/python".into()));
     let o = proc::run(&proc::Run {
@@ -57,6 +71,7 @@ fn main() {
         ctx.violation(v["class"].as_str().unwrap_or("?"), v["key"].as_str().unwrap_or("?").to_string(), v["case"].clone(), v["detail"].as_str().unwrap_or("").to_string());
     }
     repo.remove();
+    repo2.remove();
     let _ = std::fs::remove_dir_all(&root);
     let c = &res["counts"];
     let g = |k: &str| c[k].as_u64().unwrap_or(0);
